@@ -25,7 +25,8 @@ RULE = ("exhaustive part: every strictly increasing array over {0..6} (size<=5 q
         " Round-6 classes: a 'huge' kind (66 000..90 000 elements, up to 70 000 queries; binary-search form of the oracle), element / query pairs of different precision (float32 or float16 elements vs Python floats, int64 beyond 2**53 vs floats, float64 vs large Python ints)."
         " Round-7 classes: the same question asked again after the caller wrote into the first answer (second answer judged, answers must not share memory)."
         " Round-8 classes: huge kind always asks inside the gaps before / after elements 2**15, 2**16, 50 000, 60 000; first use from several threads at once."
-        " Round-9 classes: plain lists whose elements are NumPy scalars of the column's narrow type (list(float32_column)); huge sizes also between 2**15 and 2**16.")
+        " Round-9 classes: plain lists whose elements are NumPy scalars of the column's narrow type (list(float32_column)); huge sizes also between 2**15 and 2**16."
+        " Round-10 classes: 64-bit integers of mixed signedness beyond 2**53 (uint64 elements against int64 / Python-int queries and the reverse).")
 LEVEL_TEXT = ("Post-conditions on the four real search functions, judged against a definitional scan: exhaustive over a "
               "small lattice (every array / query multiset / strategy / fill combination) plus random float arrays "
               "with +-1 ulp queries. Exhaustive on the stated finite sub-space, sampled beyond it.")
